@@ -260,10 +260,10 @@ func (w *c13mWorld) emitLocked(l c13mLine) *c13mLine {
 	return &w.lines[len(w.lines)-1]
 }
 
-func (w *c13mWorld) note(l c13mLine) bool {
+func (w *c13mWorld) noteInc(inc int, l c13mLine) bool {
 	w.mu.Lock()
 	defer w.mu.Unlock()
-	if w.crashed || w.dead {
+	if inc != w.inc || w.crashed || w.dead {
 		return false
 	}
 	w.emitLocked(l)
@@ -402,7 +402,13 @@ func (d *c13mDB) Update(f func(tx walletdb.ReadWriteTx) error, reset func()) err
 
 // ---- notifier, chain io, sweeper -----------------------------------------------------------
 
-type c13mNotifier struct{ w *c13mWorld }
+// The notifier, sweeper and switch hand-over of an incarnation carry its number: a goroutine of a stopped
+// incarnation that is scheduled late (Launch goroutines are not waited for by ChannelArbitrator.Stop) must not
+// leave effects in the next one - after a real crash the process is gone.
+type c13mNotifier struct {
+	w   *c13mWorld
+	inc int
+}
 
 func (n *c13mNotifier) RegisterConfirmationsNtfn(*chainhash.Hash, []byte, uint32, uint32,
 	...chainntnfs.NotifierOption) (*chainntnfs.ConfirmationEvent, error) {
@@ -418,6 +424,9 @@ func (n *c13mNotifier) RegisterSpendNtfn(op *wire.OutPoint, _ []byte, _ uint32) 
 	n.w.mu.Lock()
 	defer n.w.mu.Unlock()
 	c := make(chan *chainntnfs.SpendDetail, 1)
+	if n.inc != n.w.inc || n.w.crashed || n.w.dead {
+		return &chainntnfs.SpendEvent{Spend: c, Cancel: func() {}}, nil
+	}
 	if d, ok := n.w.spent[*op]; ok {
 		c <- d // historical dispatch
 	} else {
@@ -443,7 +452,10 @@ type c13mChainIO struct{ *mockChainIO }
 
 func (c *c13mChainIO) GetBestBlock() (*chainhash.Hash, int32, error) { return nil, c13mHeight, nil }
 
-type c13mSweeper struct{ w *c13mWorld }
+type c13mSweeper struct {
+	w   *c13mWorld
+	inc int
+}
 
 func (s *c13mSweeper) SweepInput(inp input.Input, _ sweep.Params) (chan sweep.Result, error) {
 	op := inp.OutPoint()
@@ -455,7 +467,7 @@ func (s *c13mSweeper) SweepInput(inp input.Input, _ sweep.Params) (chan sweep.Re
 	defer s.w.mu.Unlock()
 	who, known := s.w.byOp[op]
 	result := make(chan sweep.Result, 1)
-	if s.w.crashed || s.w.dead {
+	if s.inc != s.w.inc || s.w.crashed || s.w.dead {
 		return result, nil
 	}
 	l := c13mLine{A: "Sweep", K: "other", Cb: cb, Wt: fmt.Sprintf("%v", inp.WitnessType())}
@@ -623,11 +635,12 @@ func c13mBoot(w *c13mWorld) (*ChainArbitrator, error) {
 	w.spendRegs = map[wire.OutPoint][]chan *chainntnfs.SpendDetail{}
 	w.sweepWait = map[wire.OutPoint][]chan sweep.Result{}
 	w.incW = 0
+	inc := w.inc
 	w.mu.Unlock()
 	ca := NewChainArbitrator(ChainArbitratorConfig{
 		ChainIO:  &c13mChainIO{&mockChainIO{}},
-		Notifier: &c13mNotifier{w},
-		Sweeper:  &c13mSweeper{w},
+		Notifier: &c13mNotifier{w, inc},
+		Sweeper:  &c13mSweeper{w, inc},
 		PublishTx: func(*wire.MsgTx, string) error {
 			return nil
 		},
@@ -641,7 +654,7 @@ func c13mBoot(w *c13mWorld) (*ChainArbitrator, error) {
 				if c, ok := w.bySc[m.SourceChan.ToUint64()]; ok {
 					id = c.id
 				}
-				w.note(c13mLine{A: "Up", C: id, K: k})
+				w.noteInc(inc, c13mLine{A: "Up", C: id, K: k})
 			}
 			return nil
 		},
